@@ -38,4 +38,14 @@ def minimise_cfg(assign, pred, max_runs=80):
             n = min(len(items), n * 2)
     if len(items) == 1 and test([]):
         items = []
+    # 1-minimal pass: drop single options while the predicate still holds
+    changed = True
+    while changed and len(items) > 1 and runs[0] < max_runs:
+        changed = False
+        for x in list(items):
+            comp = [y for y in items if y != x]
+            if test(comp):
+                items = comp
+                changed = True
+                break
     return dict(items)
